@@ -180,7 +180,10 @@ def get_proxy_info(
     if value:
         proxy = urlparse(value)
         auth = (
-            (unquote(proxy.username), unquote(proxy.password))
+            (
+                unquote(proxy.username),
+                unquote(proxy.password) if proxy.password else None,
+            )
             if proxy.username
             else None
         )
